@@ -318,6 +318,22 @@ class PathInterp:
                         except _Break:
                             break
                     return
+        if isinstance(it, (ast.Tuple, ast.List)) and len(it.elts) <= 16 and not any(isinstance(e, ast.Starred) for e in it.elts):
+            # a literal sequence: one concrete pass per element (pairs are unpacked onto a tuple target)
+            for e in it.elts:
+                if isinstance(st.target, (ast.Tuple, ast.List)) and isinstance(e, (ast.Tuple, ast.List)) and len(e.elts) == len(st.target.elts):
+                    vals = [ev.ev(x) for x in e.elts]
+                    for t, v in zip(st.target.elts, vals):
+                        self._store(t, v, ev, st)
+                else:
+                    self._store(st.target, ev.ev(e), ev, st)
+                try:
+                    self._block(st.body, ev)
+                except _Continue:
+                    continue
+                except _Break:
+                    break
+            return
         # symbolic loop: one pass with a symbolic index, sinks tagged as summed over the loop
         if isinstance(st.target, ast.Name):
             ev.env[st.target.id] = L(st.target.id)
